@@ -47,6 +47,12 @@ impl Lzma2Decoder {
         });
     }
 
+    /// Verification hook: see `DecoderState::verif_projection`.
+    #[cfg(lzma_rs_verif)]
+    pub fn verif_projection(&self) -> Vec<u64> {
+        self.lzma_state.verif_projection()
+    }
+
     /// Decompresses the input data into the output, consuming only as much
     /// input as needed and writing as much output as possible.
     pub fn decompress<W: io::Write, R: io::BufRead>(
@@ -65,6 +71,7 @@ impl Lzma2Decoder {
 
             if status == 0 {
                 lzma_info!("LZMA2 end of input");
+                verif_ev!("l2end", accum.len());
                 break;
             } else if status == 1 {
                 // uncompressed reset dict
@@ -185,6 +192,16 @@ impl Lzma2Decoder {
 
         self.lzma_state
             .set_unpacked_size(Some(unpacked_size + accum.len() as u64));
+        verif_ev!(
+            "l2lzma",
+            status,
+            unpacked_size,
+            packed_size,
+            self.lzma_state.lzma_props.lc,
+            self.lzma_state.lzma_props.lp,
+            self.lzma_state.lzma_props.pb,
+            accum.len()
+        );
 
         let mut taken = input.take(packed_size);
         let mut rangecoder = rangecoder::RangeDecoder::new(&mut taken)
@@ -224,6 +241,7 @@ impl Lzma2Decoder {
             ))
         })?;
         accum.append_bytes(buf.as_slice());
+        verif_ev!("l2raw", reset_dict, unpacked_size, accum.len());
 
         Ok(())
     }
